@@ -27,6 +27,25 @@ class Hook(commands.StartHook):
         return id(self)
 
 
+class Block(commands.Command):
+    """a blocking command that is NOT a hook and has no repr of its own (like OpenConnection): formatted by Command.__repr__"""
+
+    blocking = True
+
+    def __init__(self, tag):
+        self.tag = tag
+
+
+@dataclass(repr=False)
+class BlockCompleted(events.CommandCompleted):
+    command: Block
+    reply: tuple
+
+
+def _completed(c, reply):
+    return events.HookCompleted(c, reply) if isinstance(c, Hook) else BlockCompleted(c, reply)
+
+
 class Ev(events.Event):
     def __init__(self, n, block, target=None, wake=False):
         self.n, self.block, self.target, self.wake = n, block, target, wake
@@ -37,6 +56,8 @@ class Ev(events.Event):
 
 class Leaf(layer.Layer):
     """On each Ev: log start, block `block` times on distinct hooks, log each resume + reply, log end."""
+
+    cmd_cls = Hook
 
     def __init__(self, ctx, name="L"):
         super().__init__(ctx)
@@ -61,7 +82,7 @@ class Leaf(layer.Layer):
         if event.wake:
             yield commands.RequestWakeup(float(event.n))  # non-blocking; its completion arrives any time later
         for i in range(event.block):
-            r = yield Hook((self.name, event.n, i))
+            r = yield self.cmd_cls((self.name, event.n, i))
             self.log.append(("resumed", event.n, i, r))
         self.log.append(("end", event.n))
 
@@ -86,7 +107,7 @@ class Parent(layer.Layer):
             child = self.kids[event.target]
             self.log.append(("route", event.n))
         for c in child.handle_event(event):
-            if isinstance(c, Hook):
+            if isinstance(c, (Hook, Block)):
                 self.src[c] = child
             yield c
 
@@ -199,13 +220,23 @@ def h_foreign_completion(X, N):
 def h_siblings(X, N):
     ctx = sansio.make_context()
     p = Parent(ctx)
+    # debug logging (option proxy_debug) formats every command that passes a layer: observing must not change behaviour;
+    # the blocking command is a hook or a plain command without a repr of its own
+    if X.boolean("proxy_debug"):
+        p.debug = ""
+        for kid in p.kids.values():
+            kid.debug = "  "
+        X.reach("debug-logging")
+    if X.boolean("plain_blocking_command"):
+        for kid in p.kids.values():
+            kid.cmd_cls = Block
     pending = {"A": [], "B": []}
     sent = {"A": [], "B": []}
     n = 0
 
     def pump(ev):
         for c in p.handle_event(ev):
-            if isinstance(c, Hook):
+            if isinstance(c, (Hook, Block)):
                 pending[c.tag[0]].append(c)
 
     pump(events.Start())
@@ -235,12 +266,12 @@ def h_siblings(X, N):
             t = "A" if s == 4 else "B"
             if pending[t]:
                 c = pending[t].pop(0)
-                pump(events.HookCompleted(c, ("reply",) + c.tag))
+                pump(_completed(c, ("reply",) + c.tag))
                 X.reach("completion")
     for t in ("A", "B"):
         while pending[t]:
             c = pending[t].pop(0)
-            pump(events.HookCompleted(c, ("reply",) + c.tag))
+            pump(_completed(c, ("reply",) + c.tag))
     for t in ("A", "B"):
         got = [e for e in p.kids[t].log if e[0] != "started"]
         X.check(got == _oracle(sent[t]), f"C04/sibling/order-{t}", f"child {t}: {got} != {_oracle(sent[t])}")
@@ -326,8 +357,8 @@ def obligations(tier):
              encoded=ENCODED, must_reach=["end", "foreign-completion-while-paused"], parallel_depth=3),
         Symx("single-layer-schedule", lambda X: h_single(X, n1), bounds=f"every schedule of <= {n1} steps over {{event blocking 0/1/2 times, deliver oldest completion}}",
              encoded=ENCODED, must_reach=["end", "completion"], parallel_depth=3),
-        Symx("sibling-blocking", lambda X: h_siblings(X, n2), bounds=f"every schedule of <= {n2} steps over two child layers under one parent (event to A/B blocking 0/1 times, completion for A/B)",
-             encoded=ENCODED, must_reach=["end", "completion", "queued-behind-block"], parallel_depth=3),
+        Symx("sibling-blocking", lambda X: h_siblings(X, n2), bounds=f"every schedule of <= {n2} steps over two child layers under one parent (event to A/B blocking 0/1 times, completion for A/B) x debug logging off/on x blocking command = hook / plain command formatted by Command.__repr__",
+             encoded=ENCODED + ["mitmproxy.proxy.commands:Command.__repr__"], must_reach=["end", "completion", "queued-behind-block", "debug-logging"], parallel_depth=3),
         Symx("nextlayer-buffering", lambda X: h_nextlayer(X, n3), bounds=f"every schedule of <= {n3} steps (data, blocking event, completion) x decision at ask 0..{n3}",
              encoded=ENCODED, must_reach=["end", "decided", "nextlayer-completed"], parallel_depth=3),
     ]
